@@ -107,6 +107,9 @@ func expectedLeaves(s mb.Msg) (leaves []leafExp, shape string) {
 	}
 	var ps, es, as []string
 	for i, p := range s.Parts {
+		if p.Deleted {
+			continue
+		}
 		enc := p.Enc
 		if enc == "" {
 			enc = menc
